@@ -35,6 +35,7 @@ DEFAULT_FP = {
     'ubuf_control': ['stub_ubuf_control'], 'ubuf_free': ['stub_ubuf_free'],
     'upump_alloc': ['stub_upump_alloc'], 'upump_control': ['stub_upump_control'],
     'urequest_provide': ['stub_urequest_provide'], 'urequest_free': ['stub_urequest_free'],
+    'udict_mgr_control': ['stub_udict_mgr_control'],
     'upipe_command_str': ['stub_str'], 'upipe_err_str': ['stub_str'], 'upipe_event_str': ['stub_str'],
 }
 
@@ -344,12 +345,23 @@ def run_group(repo, unit, g, variant_defs=(), tag=''):
 def extract_inputs(trace, entry):
     """named nondeterministic inputs of the entry: last value of each return_value_nondet_<name>[...] leaf"""
     vals = {}
+    seq = {}
     for st in trace:
         if st.get('stepType') != 'assignment':
             continue
+        lhs = st.get('lhs', '')
+        # stub choices (any function): one value per call, in call order
+        if lhs == 'gs_vsc' and st.get('value', {}).get('binary') is not None and \
+           (st.get('sourceLocation', {}).get('function') or '').startswith(('stub_', 'vs_')):
+            seq.setdefault('vsc', []).append(int(st['value']['binary'], 2))
+            continue
+        # fields of the option units' pipe object as the entry set them
+        if lhs.startswith('g_vo_obj.') and st.get('sourceLocation', {}).get('function') == entry and \
+           st.get('value', {}).get('binary') is not None:
+            vals['vo_obj.' + lhs[len('g_vo_obj.'):]] = int(st['value']['binary'], 2)
+            continue
         if st.get('sourceLocation', {}).get('function') != entry:
             continue
-        lhs = st.get('lhs', '')
         if not lhs.startswith('return_value_nondet_'):
             continue
         v = st.get('value', {})
@@ -360,6 +372,9 @@ def extract_inputs(trace, entry):
         key = re.sub(r'\[(\d+)[a-z]*\]', r'[\1]', key)       # a[3l] -> a[3]
         key = re.sub(r'_L\d+\.a\[', '[', key)                          # VIN_ARR wrapper struct
         vals[key] = int(b, 2)
+    for nm, lst in seq.items():
+        for k, v in enumerate(lst):
+            vals['%s#%d' % (nm, k)] = v
     return vals
 
 
